@@ -72,6 +72,7 @@ type SpecFunc struct {
 	Src     string
 	File    string
 	Line    int
+	Pred    bool // set-like predicate over its last parameter: each instance becomes a named SMT predicate with a defining axiom
 	Opaque  bool // declared but never unfolded unless `reveal`ed
 	Recurse bool
 }
@@ -92,6 +93,7 @@ type Program struct {
 	Specs     map[string]*SpecFunc // pkgShort.name and bare name
 	Repo      string
 	Errors    []string
+	implContracts map[string]*Contract
 }
 
 func pkgShort(path string) string {
@@ -156,7 +158,7 @@ func loadProgram(repo string) (*Program, error) {
 		return nil, err
 	}
 	p := &Program{Pkgs: map[string]*packages.Package{}, Funcs: map[string]*FuncInfo{}, FuncByObj: map[*types.Func]*FuncInfo{},
-		Contracts: map[string]*Contract{}, Specs: map[string]*SpecFunc{}, Repo: repo}
+		Contracts: map[string]*Contract{}, Specs: map[string]*SpecFunc{}, Repo: repo, implContracts: map[string]*Contract{}}
 	for _, pkg := range pkgs {
 		if len(pkg.Errors) > 0 {
 			for _, e := range pkg.Errors {
@@ -206,7 +208,7 @@ func loadProgram(repo string) (*Program, error) {
 	return p, nil
 }
 
-var kwRe = regexp.MustCompile(`^(spec|opaque|contract|iface|purelemma|ints|requires|ensures|modifies|loop|mode|trusted|panics|use|decreases|lemma|trigger|end)\b`)
+var kwRe = regexp.MustCompile(`^(spec|opaque|pred|contract|iface|purelemma|ints|requires|ensures|modifies|loop|mode|trusted|panics|use|decreases|lemma|trigger|end)\b`)
 
 func (p *Program) parseContractFile(path, short string) error {
 	fh, err := os.Open(path)
@@ -267,13 +269,13 @@ func (p *Program) parseContractFile(path, short string) error {
 		kw := kwRe.FindString(rc.text)
 		rest := strings.TrimSpace(rc.text[len(kw):])
 		switch kw {
-		case "spec", "opaque":
+		case "spec", "opaque", "pred":
 			// spec name(a T, b U) R = expr
 			m := regexp.MustCompile(`^(\w+)\s*\(([^)]*)\)\s*([\w\[\]\*\.]+)\s*=\s*(.*)$`).FindStringSubmatch(rest)
 			if m == nil {
 				return fmt.Errorf("%s:%d: malformed spec function", path, rc.line)
 			}
-			sf := &SpecFunc{Name: m[1], Pkg: short, Ret: m[3], Src: m[4], File: path, Line: rc.line, Opaque: kw == "opaque"}
+			sf := &SpecFunc{Name: m[1], Pkg: short, Ret: m[3], Src: m[4], File: path, Line: rc.line, Opaque: kw == "opaque", Pred: kw == "pred"}
 			for _, prm := range strings.Split(m[2], ",") {
 				prm = strings.TrimSpace(prm)
 				if prm == "" {
